@@ -108,7 +108,8 @@ def _combine_tables(
     # 1: Create table metadata as combination of all
     origin = TableOrigin(
         operation=f"Pandas {method}", 
-        parents=[d.metadata.origin for d in data]
+        # a table made in code (not read from any input) has no origin: it contributes no ancestor
+        parents=[d.metadata.origin for d in data if d.metadata.origin is not None]
     )
 
     strict_types = True
